@@ -60,6 +60,8 @@ S_SYMOP = st.tuples(st.just("symop"), st.sampled_from(["multiply", "multiply", "
 S_PARTLY = st.tuples(st.just("partly"), st.sampled_from(["multiply", "concatenate"]), st.integers(0, 7), st.integers(0, 15),
                      st.booleans(), _HOW)
 MAX_PRODUCT_LAYERS = 1200  # bound on |layers(a)| * |layers(b)| of an operator step (memory)
+MAX_PRODUCT_UNITS = 1024  # bound on max units(a) * max units(b): the product of Kronecker layers carries a dense
+#                           (K x K) permutation matrix, K = units(a) * units(b) (a 65536-unit layer asked for 16 GiB)
 
 STEP = st.one_of(S_PARTLY, S_PARTLY, S_SYMOP, S_SYMOP, S_NEW_CTX, S_ENTER, S_ENTER, S_ENTER, S_EXIT, S_EXIT, S_EXIT_EXC, S_NEW_CIRCUIT, S_COMPILE, S_COMPILE,
                  S_COMPILE, S_COMPILE, S_OPERATOR, S_OPERATOR, S_OPERATOR, S_OPERATOR, S_FOREIGN)
@@ -209,6 +211,8 @@ def run_case(case):
                         pair = (fresh, sa) if new_first else (sa, fresh)
                         try:
                             new = SF.multiply(*pair) if op == "multiply" else SF.concatenate(list(pair))
+                        except MemoryError:
+                            raise
                         except Exception:  # pylint: disable=broad-except
                             new = None
                         if new is not None:
@@ -217,6 +221,8 @@ def run_case(case):
                             try:
                                 cc = ctx.compile(new) if how == "ctx" else (PL.compile(new, ctx=ctx) if how == "module-explicit"
                                                                             else PL.compile(new))
+                            except MemoryError:
+                                raise
                             except Exception as e:  # pylint: disable=broad-except
                                 from vlib.runner import _cirkit_frame
 
@@ -247,6 +253,8 @@ def run_case(case):
                             new = SF.conjugate(sa)
                         else:
                             new = SF.concatenate([sa, sb])
+                    except MemoryError:
+                        raise
                     except Exception:  # pylint: disable=broad-except
                         new = None  # refusals of the symbolic operators are not C18's business
                     if new is not None:
@@ -265,6 +273,8 @@ def run_case(case):
                             cc = PL.compile(sym, ctx=ctx)
                         else:
                             cc = PL.compile(sym)
+                    except MemoryError:
+                        raise
                     except Exception as e:  # pylint: disable=broad-except
                         from vlib.runner import _cirkit_frame
 
@@ -292,9 +302,12 @@ def run_case(case):
                     kw = {} if how != "module-explicit" else {"ctx": ctx}
                     tgt = ctx if how == "method" else PL
                     expected_ops = None
-                    if (op in ("multiply", "differentiate")
-                            and len(list(sa.layers)) * (len(list(sb.layers)) if op == "multiply" else 4) > MAX_PRODUCT_LAYERS):
-                        # iterated products of products grow multiplicatively (a thorough-tier worker reached 59 GB):
+                    units = lambda c: max(l.num_output_units for l in c.layers)  # noqa: E731
+                    if ((op in ("multiply", "differentiate")
+                         and len(list(sa.layers)) * (len(list(sb.layers)) if op == "multiply" else 4) > MAX_PRODUCT_LAYERS)
+                            or (op == "multiply" and units(sa) * units(sb) > MAX_PRODUCT_UNITS)):
+                        # iterated products of products grow multiplicatively in layers and units (a thorough-tier worker
+                        # reached 59 GB):
                         # the history goes on without this step
                         feats.add("operator-skipped(result-too-large)")
                         continue
@@ -316,6 +329,8 @@ def run_case(case):
                         else:
                             res = tgt.concatenate(ca, cb, **kw)
                             expected = (CircuitOperator.CONCATENATE, (sa, sb))
+                    except MemoryError:
+                        raise
                     except Exception as e:  # pylint: disable=broad-except
                         # documented refusals of the symbolic operators (no rule, incompatible, empty scope...)
                         from vlib.ops import refusal_types
@@ -364,6 +379,8 @@ def run_case(case):
                             raised = None
                         except ValueError as e:
                             raised = e
+                        except MemoryError:
+                            raise
                         except Exception as e:  # pylint: disable=broad-except
                             raise Violation("foreign-circuit-rejected", f"foreign[{op}]:{type(e).__name__}", str(e)[:200]) from e
                         if raised is None:
